@@ -6,6 +6,7 @@ Verdict(e) ==
   ELSE IF ~e.crs_ok THEN "reject:crs_not_the_requested_one"
   ELSE CASE c.mode = "res" -> (LET v == ResOK(c, o) IN IF v # "ok" THEN "reject:" \o v ELSE IF o # ResModel(c) THEN "drift:differs_from_model" ELSE "ok")
          [] c.mode = "shape" -> (LET v == ShapeOK(c, o) IN IF v # "ok" THEN "reject:" \o v ELSE IF o # ShapeModel(c) THEN "drift:differs_from_model" ELSE "ok")
+         [] c.mode = "region" -> (LET v == RegionOK(c, e) IN IF v # "ok" THEN "reject:" \o v ELSE "ok")
          [] c.mode = "ishape" -> (LET v == IShapeOK(c, o) IN IF v # "ok" THEN "reject:" \o v ELSE "ok")
 VARIABLE l
 Init == l = 1
